@@ -1,0 +1,51 @@
+//go:build verif
+
+package sticky
+
+// This file exists only in builds with the `verif` tag. Nothing here changes
+// the balancer's behavior: the engine reports the decisions it takes to an
+// optional sink so that an external verification harness can replay them.
+
+// VerifTrace, when non-nil, receives one event per engine decision:
+//
+//	'o' m owns (topic, part) after parseMemberMetadata; 's' m is the stale claimant
+//	'D' the partition is un-mapped from m     'R' re-stuck to stale claimant m
+//	'A' unassigned partition assigned to m    'G' partition moves from m to m2
+//	'S' m finished applying a steal path      'U' m found no steal path (static)
+//	'Z' balancing finished
+var VerifTrace func(kind byte, m, m2, topic string, part int32)
+
+func (b *balancer) vt(kind byte, m, m2 int, partNum int32) {
+	if VerifTrace == nil {
+		return
+	}
+	var id, id2, topic string
+	var part int32
+	if m >= 0 {
+		id = b.members[m].ID
+	}
+	if m2 >= 0 {
+		id2 = b.members[m2].ID
+	}
+	if partNum >= 0 {
+		info := b.topicInfos[b.partOwners[partNum]]
+		topic, part = info.topic, partNum-info.partNum
+	}
+	VerifTrace(kind, id, id2, topic, part)
+}
+
+// vtInit reports the prior plan and the stale claims as parsed from the
+// members' metadata.
+func (b *balancer) vtInit() {
+	if VerifTrace == nil {
+		return
+	}
+	for memberNum, partNums := range b.plan {
+		for _, partNum := range partNums {
+			b.vt('o', memberNum, -1, partNum)
+		}
+	}
+	for partNum, memberNum := range b.stales {
+		b.vt('s', int(memberNum), -1, partNum)
+	}
+}
